@@ -79,10 +79,15 @@ func C03(c *core.Ctx) {
 		if json.Unmarshal(x.Body, &m) != nil {
 			return "unparsable"
 		}
-		var sig string
-		if json.Unmarshal(m["signature"], &sig) != nil {
+		// the signature is not signed content: it is read the way encoding/json reads a struct field,
+		// i.e. under any letter case of its key ("Signature" names the same field)
+		var sv struct {
+			Signature string `json:"signature"`
+		}
+		if json.Unmarshal(x.Body, &sv) != nil {
 			return "unparsable"
 		}
+		sig := sv.Signature
 		sb, err := hex.DecodeString(sig)
 		if err != nil {
 			return "unparsable"
